@@ -350,4 +350,10 @@ def moment_spread(h):
             spec = '((%s) / (%s))' % (' + '.join('%s * w[%d]' % (t, i) for i, t in enumerate(terms)), ' + '.join('w[%d]' % i for i in range(n)))
         else:
             spec = '((%s) / %d)' % (' + '.join(terms), n)
-        h.check('weighted-mean-of-the-powered-deviations', 'r == ' + spec, r=r, x=x, w=w)
+        if h.is_sym():
+            h.check('weighted-mean-of-the-powered-deviations', 'r == ' + spec, r=r, x=x, w=w)
+        else:
+            # floats: odd central moments cancel (two points: exactly 0 in the reals), so the cross-check compares on
+            # the scale of the summed magnitudes, not of the (possibly vanishing) result
+            mag = ' + '.join('abs(%s)' % t for t in terms)
+            h.check('weighted-mean-of-the-powered-deviations', 'abs(r - %s) <= 1e-9 * (1 + %s)' % (spec, mag), r=r, x=x, w=w)
